@@ -185,6 +185,44 @@ Proof. intros [[y m] d] C. cbn in *. rewrite C. reflexivity. Qed.
 Theorem weekday_orig_refuted : feel_date 999999999 1 1 = true /\ weekday_orig (999999999, 1, 1) = None.
 Proof. vm_compute. split; reflexivity. Qed.
 
+(* the fixed weekday: the day number computed by the code is the calendar's, for every year *)
+Lemma days_impl_period : forall y m d k, days_impl (y + 400 * k, m, d) = days_impl (y, m, d) + 146097 * k.
+Proof.
+  intros y m d k. unfold days_impl.
+  set (c := if m <=? 2 then 1 else 0).
+  replace ((y + 400 * k - c) / 400) with ((y - c) / 400 + k) by (Z.div_mod_to_equations; lia).
+  replace (y + 400 * k - c - ((y - c) / 400 + k) * 400) with (y - c - (y - c) / 400 * 400) by lia.
+  lia.
+Qed.
+
+Definition days_impl_check (y : Z) : bool :=
+  forallb (fun m => forallb (fun d => negb (valid y m d) || (days_impl (y, m, d) =? days_from_civil y m d)) (zrange 1 31)) (zrange 1 12).
+
+Lemma days_impl_sweep : forallb days_impl_check (zrange 0 400) = true.
+Proof. vm_compute. reflexivity. Qed.
+
+Theorem days_impl_correct : forall y m d, valid y m d = true -> days_impl (y, m, d) = days_from_civil y m d.
+Proof.
+  intros y m d V. pose proof V as V0. apply valid_iff in V. destruct V as [Hm Hd]. pose proof (last_day_range y m Hm).
+  assert (E : y = y mod 400 + 400 * (y / 400)) by (Z.div_mod_to_equations; lia).
+  rewrite E. rewrite days_impl_period, days_period.
+  assert (V1 : valid (y mod 400) m d = true) by (rewrite E in V0; rewrite valid_period in V0; exact V0).
+  pose proof days_impl_sweep as W. rewrite forallb_forall in W.
+  specialize (W (y mod 400)). rewrite zrange_In in W.
+  assert (R : 0 <= y mod 400 < 0 + Z.of_nat 400) by (Z.div_mod_to_equations; lia). specialize (W R).
+  unfold days_impl_check in W. rewrite forallb_forall in W. specialize (W m). rewrite zrange_In in W.
+  assert (Rm : 1 <= m < 1 + Z.of_nat 12) by lia. specialize (W Rm).
+  rewrite forallb_forall in W. specialize (W d). rewrite zrange_In in W.
+  assert (Rd : 1 <= d < 1 + Z.of_nat 31) by lia. specialize (W Rd).
+  rewrite V1 in W. cbn [negb orb] in W. apply Z.eqb_eq in W. rewrite W. reflexivity.
+Qed.
+
+Theorem weekday_impl_correct : forall a, valid3 a = true -> weekday_impl a = weekday_spec a.
+Proof.
+  intros [[y m] d] V. cbn [valid3] in V. unfold weekday_impl, weekday_spec, weekday, weekday_of_days.
+  rewrite (days_impl_correct y m d V). reflexivity.
+Qed.
+
 Theorem weekday_consecutive : forall y m d, weekday_of_days (days_from_civil y m d + 1) = weekday y m d mod 7 + 1.
 Proof. intros. unfold weekday. apply weekday_next. Qed.
 
